@@ -2,6 +2,7 @@ package unmarshal
 
 import (
 	"bytes"
+	"encoding/json"
 	"fmt"
 	"github.com/go-faster/city"
 	"github.com/go-faster/jx"
@@ -243,10 +244,22 @@ func (p *pushRequestDec) decodeStreamEntry(d *jx.Decoder) error {
 var DecodePushRequestStringV2 = Build(
 	withLogsParser(func(ctx *ParserCtx) iLogsParser { return &pushRequestDec{ctx: ctx} }))
 
+// quoteJSON renders s as a JSON string (RFC 8259).  strconv.Quote is Go syntax: it emits \a, \v, \xHH and
+// \UXXXXXXXX, none of which a JSON reader accepts.
+func quoteJSON(s string) string {
+	var buf bytes.Buffer
+	enc := json.NewEncoder(&buf)
+	enc.SetEscapeHTML(false)
+	if err := enc.Encode(s); err != nil {
+		return `""`
+	}
+	return strings.TrimSuffix(buf.String(), "\n")
+}
+
 func encodeLabels(lbls [][]string) string {
 	arrLbls := make([]string, len(lbls))
 	for i, l := range lbls {
-		arrLbls[i] = fmt.Sprintf("%s:%s", strconv.Quote(l[0]), strconv.Quote(l[1]))
+		arrLbls[i] = fmt.Sprintf("%s:%s", quoteJSON(l[0]), quoteJSON(l[1]))
 	}
 	return fmt.Sprintf("{%s}", strings.Join(arrLbls, ","))
 }
